@@ -11,6 +11,10 @@ CHECKS = {
    text="Bounded symbolic model checking of the real constraint classes and the An/The evaluation loop: bounds, counts and attribute values are unbounded z3 integers and the domain size is a bounded symbolic choice, so every (constraint, n) pair with any integer bounds is decided per path by the solver; all paths inside the bound are explored.",
    note="Domains of <= 4 (quick) / <= 6 (thorough) objects in the integration cases; integer bounds only; the condition used to control the number of solutions is x.a > k (its correctness is C01). Trusted: z3, the symx proxies (validated every run against native runs on seeded values).",
    technique=SYMX),
+ "C12": dict(category="model_checking", design="DESIGN.md 4 C12",
+   text="Every call shape within the bound (callable kind x arity x defaults x variable/attribute/concrete per argument x positional/keyword split) is one case; argument values are unbounded z3 integers, so for each shape the solver decides, on every path of the real predicate.py/symbolic.py code, that results equal filtering with the concrete call and that the body was invoked once per candidate binding with every parameter bound to the argument written in that position.",
+   note="Arity <= 2 quick / <= 3 thorough, 2 objects per domain, <= 2 variables; no *args/**kwargs or keyword-only parameters; call order not asserted. Trusted: z3, symx proxies (validated against native runs every run).",
+   technique=SYMX),
 }
 NA_REASON = "check not built yet (build in progress, see DESIGN.md section 9 for the build order)"
 NA = {}
